@@ -27,7 +27,8 @@ DIVERGED = _mp.Value("i", 0)  # divergences seen so far, shared with the forked 
 
 
 def guarded(fn, seconds=3.0):
-    """run fn() under a SIGALRM watchdog; a non-terminating loop is reported as Diverged.  Nest-safe: an enclosing
+    """run fn() under a watchdog on the process's own CPU time (SIGPROF: a busy machine does not eat the budget, a loop that never
+    ends still burns it); a non-terminating loop is reported as Diverged.  Nest-safe: an enclosing
     watchdog keeps its deadline (the inner one never outlives it and re-arms it on the way out).  Once this process
     (or a sibling worker) has seen divergences the budget of later calls shrinks (a divergence is already a violation; what follows only
     has to finish): 1 → at most 5 s, 3 → at most 1 s."""
@@ -39,12 +40,12 @@ def guarded(fn, seconds=3.0):
     elif seen >= 1:
         seconds = min(seconds, 5.0)
     try:
-        old = signal.signal(signal.SIGALRM, _alarm)
+        old = signal.signal(signal.SIGPROF, _alarm)
     except ValueError:  # not in the main thread: run unguarded
         return fn()
-    outer, _ = signal.getitimer(signal.ITIMER_REAL)
-    t0 = time.monotonic()
-    signal.setitimer(signal.ITIMER_REAL, min(seconds, outer) if outer else seconds)
+    outer, _ = signal.getitimer(signal.ITIMER_PROF)
+    t0 = time.process_time()
+    signal.setitimer(signal.ITIMER_PROF, min(seconds, outer) if outer else seconds)
     try:
         return fn()
     except Diverged:
@@ -52,10 +53,10 @@ def guarded(fn, seconds=3.0):
             DIVERGED.value += 1
         raise
     finally:
-        signal.setitimer(signal.ITIMER_REAL, 0)
-        signal.signal(signal.SIGALRM, old)
+        signal.setitimer(signal.ITIMER_PROF, 0)
+        signal.signal(signal.SIGPROF, old)
         if outer:
-            signal.setitimer(signal.ITIMER_REAL, max(0.001, outer - (time.monotonic() - t0)))
+            signal.setitimer(signal.ITIMER_PROF, max(0.001, outer - (time.process_time() - t0)))
 
 
 def split_params(toks):
